@@ -45,3 +45,7 @@ func init() {
 func init() {
 	prop("TMP-OPT", []string{"PLANMAP", "ROUTE", "NARROWONLYKEY", "SELECTMINMAX", "ROLECHAIN", "NOREADAFTEREXIT"}, "temporary grouping while rules are being built", "")
 }
+
+func init() {
+	prop("TMP-TABLES", []string{"OPMAPS", "PRECTABLE", "ASSOC", "KWTABLE", "OP2TABLE", "POSPROV"}, "temporary grouping while rules are being built", "")
+}
